@@ -393,19 +393,19 @@ theorem C03_mt_eq_st_given_handover (c : Codec) (d : Decls) (rm : RealMap) (body
 
 /-! the time table of a recording made by several encoders -/
 
-theorem finishBlock_clean' (c : Codec) (x : Enc) : (finishBlock c x).hasNewData = false := by
+theorem finishBlock_not_dirty (c : Codec) (x : Enc) : (finishBlock c x).hasNewData = false := by
   unfold finishBlock
   by_cases h : x.hasNewData = true
   · simp [h]
   · simp [h]
 
 theorem finishBlock_idem (c : Codec) (x : Enc) : finishBlock c (finishBlock c x) = finishBlock c x :=
-  finishBlock_clean c _ (finishBlock_clean' c x)
+  finishBlock_clean c _ (finishBlock_not_dirty c x)
 
 /-- appending concatenates the time tables (no assumption on the encoders) -/
 theorem append_table_gen (c : Codec) (a b e : Enc) (h : append c a b = some e) :
     e.hasNewData = false ∧ (finish c e).2 = (finish c a).2 ++ (finish c b).2 := by
-  have da := finishBlock_clean' c a
+  have da := finishBlock_not_dirty c a
   unfold append at h
   simp only at h
   have hfin : ∀ x : Enc, x.hasNewData = false → (finish c x).2 = x.blocksRev.reverse.flatMap (·.timeTable) := by
